@@ -480,6 +480,29 @@ func (x *Exec) eval(sx *SX, env *Env) Val {
 			return Val{S: sym, T: rt}
 		}
 		return Val{S: "(" + strings.Join(parts, " ") + ")", T: rt}
+	case "callres":
+		if env.st == nil {
+			x.specFail("callres outside a path")
+		}
+		k, _ := strconv.Unquote(args[0].Atom)
+		var keys []string
+		for ck := range env.st.callRes {
+			if strings.Contains(ck, k) {
+				keys = append(keys, ck)
+			}
+		}
+		if len(keys) != 1 {
+			x.specFail("callres %q matches %d called functions on this path", k, len(keys))
+		}
+		rs := env.st.callRes[keys[0]]
+		v := rs[len(rs)-1]
+		if len(args) > 1 {
+			n, _ := strconv.Atoi(args[1].Atom)
+			if v.Tup != nil {
+				v = v.Tup[n]
+			}
+		}
+		return v
 	case "calls":
 		// (calls "key") -> number of calls of a tracked function along this path
 		if env.st == nil {
